@@ -709,7 +709,7 @@ func (ex *Exec) evQuant(x *SQuant, env *Env) Val {
 		body2 = strings.ReplaceAll(body2, sym, "(- "+k+" "+off+")")
 		trig := strings.ReplaceAll(p, idx, k)
 		copies = append(copies, fmt.Sprintf("(forall ((%s Int)) (! %s :pattern (%s)))", k, body2, trig))
-		if len(copies) >= 2 {
+		if len(copies) >= 3 {
 			break
 		}
 	}
@@ -834,7 +834,8 @@ func (ex *Exec) evCall(x *SCall, env *Env) Val {
 		return TV(app(SortBool, "wraps", a.T, b.T), boolT)
 	case "fresh":
 		v := arg(0)
-		return TV(Not(mkTerm("(isold "+ex.idOf(v).S+")", SortBool)), boolT)
+		id := ex.idOf(v)
+		return TV(And(Not(mkTerm("(isold "+id.S+")", SortBool)), Eq(mkTerm("(rg.kind "+id.S+")", SortInt), IntLit(0))), boolT)
 	case "isold":
 		v := arg(0)
 		return TV(mkTerm("(isold "+ex.idOf(v).S+")", SortBool), boolT)
